@@ -675,3 +675,24 @@ Lemma later_wraps_earlier : forall (V : Type) (ms : list (middleware V)) (m : mi
   compose core (ms ++ [m]) = m (compose core ms)
   /\ add_middleware m (compose core ms) = compose core (ms ++ [m]).
 Proof. intros V ms m core. exact (conj (compose_snoc ms m core) (add_middleware_is_snoc ms m core)). Qed.
+
+(** a middleware that changes the number of arguments makes the reflect call panic: every
+    middleware was entered, the proxied function was not called, nobody exits; one that changes the
+    number of results makes the generated stub panic after all exits *)
+Lemma arity_break_panics : forall (V : Type) nin nret (f : handler V) (ms : list (mwspec V)) a,
+  (length (args_in (rev ms) a) <> nin ->
+   arity_stub nret (new_method nin f (map mw_of ms)) a = (enter_events (rev ms) a, None))
+  /\ (forall ctr r, length (args_in (rev ms) a) = nin -> f (args_in (rev ms) a) = (ctr, Some r) ->
+      length (res_out ms r) <> nret ->
+      arity_stub nret (new_method nin f (map mw_of ms)) a
+      = (enter_events (rev ms) a ++ ctr ++ exit_events ms r, None)).
+Proof.
+  intros V nin nret f ms a. split.
+  - intros Hlen. unfold arity_stub, new_method.
+    rewrite (compose_std_panic ms (reflect_handler nin f) a []).
+    + rewrite app_nil_r. reflexivity.
+    + apply reflect_handler_panic. exact Hlen.
+  - intros ctr r Hlen Hf Hres. unfold new_method.
+    apply arity_stub_bad with (r := res_out ms r); [|exact Hres].
+    apply compose_std_some. rewrite reflect_handler_ok by exact Hlen. exact Hf.
+Qed.
